@@ -1033,8 +1033,13 @@ func (c *c14) oneCase(kind string, nops int) {
 	if kind == "story" {
 		c.story()
 	}
-	if kind == "lazy" && c.rng.Intn(3) == 0 {
-		c.storyOverflow()
+	if kind == "lazy" {
+		switch c.rng.Intn(3) {
+		case 0:
+			c.storyOverflow()
+		case 1:
+			c.storyLostNotice()
+		}
 	}
 
 	discRun := false
@@ -1424,6 +1429,63 @@ func (c *c14) storyInterleave(k int) {
 	if !c.dead && c.needNtfy != 0 {
 		c.opNotify(c.needNtfy)
 	}
+}
+
+// storyLostNotice (lazy clients only): the client reads Confirmed(b1) / Spend,
+// the block is disconnected (NegativeConf / Reorg is put into the channel) and
+// before the client gets to read it the transaction is mined again in another
+// block: handleConfDetailsAtTip / handleSpendDetailsAtTip consume the unread
+// notice, and the client next reads Confirmed(b2) / a second Spend.
+func (c *c14) storyLostNotice() {
+	k := c.rng.Intn(3)
+	if _, _, ok := c.txOnChain(k); ok {
+		return
+	}
+	for _, o := range c14TxSpends[k] {
+		if _, _, _, ok := c.opOnChain(o); ok {
+			return
+		}
+	}
+	c.opRegConf(k, 1, c.cur+1)
+	if len(c14TxSpends[k]) > 0 && !c.dead {
+		c.opRegSpend(c14TxSpends[k][0], c.cur+1)
+	}
+	drain := func() {
+		if !c.dead {
+			c.pf("drain => ok")
+			c.drain()
+			c.dump()
+		}
+	}
+	if c.dead || c.cur >= 11 {
+		return
+	}
+	c.opConnect([]int{k})
+	if !c.dead {
+		c.opNotify(c.cur)
+	}
+	drain() // reads Confirmed(b1)
+	if c.dead || !(c.cur > 0 && c.cur-1+c.limit > c.maxTip) {
+		return
+	}
+	c.opDisconnect(c.cur) // NegativeConf sent, not read
+	if c.dead {
+		return
+	}
+	if c.rng.Intn(2) == 0 {
+		c.opConnect(nil)
+		if !c.dead {
+			c.opNotify(c.cur)
+		}
+		if c.dead || c.cur >= 12 {
+			return
+		}
+	}
+	c.opConnect([]int{7, k}) // mined again, other block / index
+	if !c.dead {
+		c.opNotify(c.cur)
+	}
+	drain() // reads Confirmed(b2) without having seen a NegativeConf
 }
 
 // storyOverflow (lazy clients only): a client that never reads its Updates
